@@ -1424,4 +1424,90 @@ theorem parseIntoAnswer_total (d : List Nat) (scope : Option Nat) :
         exact ⟨_, rfl⟩
 
 
+/-! ### soundness of an accepted name: whatever `ParsedName::parse` accepts respects the DNS limits -/
+
+/-- the labels collected so far are well-formed and account for the name length, which is below 255 -/
+def NS.Sound (s : NS) : Prop :=
+  (∀ l ∈ s.acc, 1 ≤ l.length ∧ l.length ≤ 63) ∧ s.nameLen = (s.acc.map (fun l => l.length + 1)).sum ∧ s.nameLen < 255
+
+theorem encName_length_sum (ls : List (List Nat)) : (encName ls).length = (ls.map (fun l => l.length + 1)).sum + 1 := by
+  induction ls with
+  | nil => rfl
+  | cons l ls ih => rw [encName_length_cons, ih]; simp; omega
+
+theorem nameStep_sound (d : List Nat) (s : NS) (hs : s.Sound) :
+    match nameStep d s with
+    | .ok (.more s') => s'.Sound
+    | .ok (.done n _) => (∀ l ∈ n.labels, 1 ≤ l.length ∧ l.length ≤ 63) ∧ n.nameLen = (encName n.labels).length ∧ n.nameLen ≤ 255
+    | .error _ => True := by
+  rw [nameStep_eq]
+  cases hl : parseLabelType d s.p with
+  | error e => trivial
+  | ok v =>
+    obtain ⟨lt, p1⟩ := v
+    have hinv := parseLabelType_ok_inv d s.p lt p1 hl
+    cases lt with
+    | normal n =>
+      simp only
+      by_cases hn : n = 0
+      · simp only [hn, if_true]
+        refine ⟨fun l hl => hs.1 l (by simpa using hl), ?_, by have := hs.2.2; omega⟩
+        rw [encName_length_sum, List.map_reverse, List.sum_reverse, ← hs.2.1]
+      · simp only [hn, if_false]
+        cases hk : take d p1 n with
+        | error e => trivial
+        | ok w =>
+          obtain ⟨label, p2⟩ := w
+          have hti := take_ok_inv d p1 n label p2 hk
+          have hlen : label.length = n := by
+            rw [hti.2.2.2.1, List.length_take, List.length_drop]; have := hti.2.2.2.2; omega
+          simp only
+          by_cases hlong : s.nameLen + n + 1 ≥ 255
+          · rw [if_pos hlong]; trivial
+          · rw [if_neg hlong]
+            have hn63 : n ≤ 63 := hinv.2.2.2
+            refine ⟨?_, ?_, by show s.nameLen + n + 1 < 255; omega⟩
+            · intro l hl
+              simp only [List.mem_cons] at hl
+              rcases hl with rfl | hl
+              · omega
+              · exact hs.1 l hl
+            · show s.nameLen + n + 1 = ((label :: s.acc).map (fun l => l.length + 1)).sum
+              simp only [List.map_cons, List.sum_cons, hlen, ← hs.2.1]; omega
+    | ptr t =>
+      simp only
+      by_cases h1 : p1.pos < 2
+      · rw [if_pos h1]; trivial
+      · rw [if_neg h1]
+        by_cases h2 : t ≥ p1.pos - 2
+        · rw [if_pos h2]; trivial
+        · rw [if_neg h2]
+          by_cases h3 : t > p1.len
+          · rw [if_pos h3]; trivial
+          · rw [if_neg h3]; exact hs
+
+theorem nameRun_sound (d : List Nat) : ∀ (f : Nat) (s : NS), s.Sound → ∀ n p', nameRun f d s = .ok (n, p') →
+    (∀ l ∈ n.labels, 1 ≤ l.length ∧ l.length ≤ 63) ∧ n.nameLen = (encName n.labels).length ∧ n.nameLen ≤ 255 := by
+  intro f
+  induction f with
+  | zero => intro s _ n p' h; cases h
+  | succ f ih =>
+    intro s hs n p' h
+    have hg := nameStep_sound d s hs
+    unfold nameRun at h
+    cases hst : nameStep d s with
+    | error e => rw [hst] at h; cases h
+    | ok st =>
+      rw [hst] at h hg
+      cases st with
+      | done n0 q => simp only at h; injection h with h; injection h with h1 h2; subst h1; exact hg
+      | more s' => exact ih s' hg n p' h
+
+/-- **everything the name parser accepts is a legal DNS name**: labels of 1..63 octets, the reported length is
+the length of the uncompressed name, at most 255 octets - however many compression pointers were followed -/
+theorem parseName_sound (d : List Nat) (p : P) (n : Name) (p' : P) (h : parseName d p = .ok (n, p')) :
+    (∀ l ∈ n.labels, 1 ≤ l.length ∧ l.length ≤ 63) ∧ n.nameLen = (encName n.labels).length ∧ n.nameLen ≤ 255 :=
+  nameRun_sound d _ _ ⟨(by intro l hl; cases hl), rfl, (by show 0 < 255; omega)⟩ n p' h
+
+
 end Codec.Mdns
